@@ -57,6 +57,11 @@ type c11member struct {
 }
 
 func checkC11(run *Run, res *Result) {
+	checkC11Rules(run, res)
+	markPreemptedWait(run, res, "C11/R6-client-stopped", "C11/R6-process-died", "C11/R1-callbacks-not-bracketed", "C11/R4-never-reopened", "C11/R2-delivery-while-closed", "C11/R5-reopened-on-wrong-range")
+}
+
+func checkC11Rules(run *Run, res *Result) {
 	cfg := &run.Cfg
 	ms := map[int]*c11member{}
 	get := func(m int) *c11member {
